@@ -26,6 +26,7 @@ Definition P_ValidAudioFraming := 16.
 Definition P_DimsFit16 := 17.         (* finish: width/height fit the 16-bit sample-entry fields *)
 Definition P_FileFits32 := 18.        (* finish: media data / chunk offsets fit 32-bit fields *)
 Definition P_SinkOk := 19.            (* finish: the sink accepted every write *)
+Definition P_ParamSetsFit16 := 20.    (* finish: the parameter sets of the first key frame fit avcC/hvcC's 16-bit length fields *)
 
 (** summary of the accepted history *)
 Record csum := {
@@ -37,11 +38,13 @@ Record csum := {
   c_first_vpts : option f64;
   c_last_apts : option f64;
   c_last_atick : option N;
-  c_curv : f64; c_cura : f64 }.
+  c_curv : f64; c_cura : f64;
+  c_params_fit : bool }.           (* the first accepted key frame's parameter sets are each shorter than 65536 bytes *)
 
 Definition csum0 : csum :=
   {| c_closed := false; c_vcount := 0; c_last_vpts := None; c_last_vdts := None; c_last_vtick := None;
-     c_first_vpts := None; c_last_apts := None; c_last_atick := None; c_curv := f_zero; c_cura := f_zero |}.
+     c_first_vpts := None; c_last_apts := None; c_last_atick := None; c_curv := f_zero; c_cura := f_zero;
+     c_params_fit := true |}.
 
 Definition has_type (p : N -> bool) (units : list bytes) : bool :=
   existsb (fun u => match u with b :: _ => p b | [] => false end) units.
@@ -55,6 +58,20 @@ Definition has_config (codec : video_codec) (d : bytes) : bool :=
             has_type (fun b => (b / 2) mod 64 =? 34) (spec_units d)
   | Av1 => match extract_av1_config d with Some _ => true | None => false end
   | Vp9 => match extract_vp9_config d with Some _ => true | None => false end
+  end.
+
+(* the first unit of each parameter-set type of the declarative split is shorter than 65536 bytes
+   (avcC / hvcC store it behind a 16-bit length); AV1 and VP9 records have no such field *)
+Definition first_unit_c (p : N -> bool) (d : bytes) : option bytes :=
+  find (fun u => match u with b :: _ => p b | [] => false end) (spec_units d).
+Definition unit_fits (o : option bytes) : bool := match o with Some u => len u <=? U16MAX | None => true end.
+Definition params_fit (codec : video_codec) (d : bytes) : bool :=
+  match codec with
+  | H264 => unit_fits (first_unit_c (fun b => b mod 32 =? 7) d) && unit_fits (first_unit_c (fun b => b mod 32 =? 8) d)
+  | H265 => unit_fits (first_unit_c (fun b => (b / 2) mod 64 =? 32) d) &&
+            unit_fits (first_unit_c (fun b => (b / 2) mod 64 =? 33) d) &&
+            unit_fits (first_unit_c (fun b => (b / 2) mod 64 =? 34) d)
+  | _ => true
   end.
 
 Definition valid_audio (a : audio_track) (d : bytes) : bool :=
@@ -133,7 +150,8 @@ Definition violated (b : builder) (s : csum) (o : op) : list N :=
   | EA d smp => audio_pre b s (c_cura s) d
   | FIN =>
       nb (negb (c_closed s)) P_NotFinished ++
-      nb (match b_video b with Some (_, w, h) => (w <=? U16MAX) && (h <=? U16MAX) | None => true end) P_DimsFit16
+      nb (match b_video b with Some (_, w, h) => (w <=? U16MAX) && (h <=? U16MAX) | None => true end) P_DimsFit16 ++
+      nb (c_params_fit s) P_ParamSetsFit16
   end.
 
 (** outcomes as observed at the API: success, or an error class given by the
@@ -144,7 +162,7 @@ Definition err_names (e : merr) : list N :=
   match e with
   | MissingVideoConfig => []
   | MIo IoInvalidData => [P_GapFits32; P_CtsFits32; P_FileFits32]
-  | MIo IoInvalidInput => [P_DimsFit16]
+  | MIo IoInvalidInput => [P_DimsFit16; P_ParamSetsFit16]
   | MIo IoOther => [P_NotFinished]
   | MIo _ => [P_SinkOk]
   | AlreadyFinished => [P_NotFinished]
@@ -174,31 +192,33 @@ Definition outcome_of (r : result) : outcome :=
 (* summary update after an ACCEPTED call; rejected calls leave it unchanged,
    except that a finish attempt which got past its argument checks closes the muxer *)
 Definition csum_ok (b : builder) (s : csum) (o : op) : csum :=
-  let upd_v (pts dts : f64) (explicit : bool) (curv : f64) :=
-    {| c_closed := c_closed s; c_vcount := c_vcount s + 1; c_last_vpts := Some pts;
+  let codec := match b_video b with Some (c, _, _) => c | None => H264 end in
+  let upd_v (pts dts : f64) (explicit : bool) (curv : f64) (d : bytes) :=
+    {| c_params_fit := match c_last_vtick s with None => params_fit codec d | Some _ => c_params_fit s end;
+       c_closed := c_closed s; c_vcount := c_vcount s + 1; c_last_vpts := Some pts;
        c_last_vdts := if explicit then Some dts else c_last_vdts s;
        c_last_vtick := Some (tick dts);
        c_first_vpts := match c_first_vpts s with None => Some pts | x => x end;
        c_last_apts := c_last_apts s; c_last_atick := c_last_atick s; c_curv := curv; c_cura := c_cura s |} in
   let upd_a (pts : f64) (cura : f64) :=
-    {| c_closed := c_closed s; c_vcount := c_vcount s; c_last_vpts := c_last_vpts s; c_last_vdts := c_last_vdts s;
+    {| c_params_fit := c_params_fit s; c_closed := c_closed s; c_vcount := c_vcount s; c_last_vpts := c_last_vpts s; c_last_vdts := c_last_vdts s;
        c_last_vtick := c_last_vtick s; c_first_vpts := c_first_vpts s;
        c_last_apts := Some pts; c_last_atick := Some (tick pts); c_curv := c_curv s; c_cura := cura |} in
   match o with
-  | WV p _ _ => upd_v (decode64 p) (decode64 p) false (c_curv s)
-  | WVD p t _ _ => upd_v (decode64 p) (decode64 t) true (c_curv s)
+  | WV p d _ => upd_v (decode64 p) (decode64 p) false (c_curv s) d
+  | WVD p t d _ => upd_v (decode64 p) (decode64 t) true (c_curv s) d
   | WA p _ => upd_a (decode64 p) (c_cura s)
-  | EV _ ms => upd_v (c_curv s) (c_curv s) false (fadd (c_curv s) (fdiv (of_N (u32 ms)) f_1000))
+  | EV d ms => upd_v (c_curv s) (c_curv s) false (fadd (c_curv s) (fdiv (of_N (u32 ms)) f_1000)) d
   | EA _ smp =>
       let rate := match audio_of (b_audio b) with Some a => at_sample_rate a | None => 0 end in
       upd_a (c_cura s) (fadd (c_cura s) (fdiv (of_N (u32 smp)) (of_N (u32 rate))))
-  | FIN => {| c_closed := true; c_vcount := c_vcount s; c_last_vpts := c_last_vpts s; c_last_vdts := c_last_vdts s;
+  | FIN => {| c_params_fit := c_params_fit s; c_closed := true; c_vcount := c_vcount s; c_last_vpts := c_last_vpts s; c_last_vdts := c_last_vdts s;
               c_last_vtick := c_last_vtick s; c_first_vpts := c_first_vpts s; c_last_apts := c_last_apts s;
               c_last_atick := c_last_atick s; c_curv := c_curv s; c_cura := c_cura s |}
   end.
 
 Definition close (s : csum) : csum :=
-  {| c_closed := true; c_vcount := c_vcount s; c_last_vpts := c_last_vpts s; c_last_vdts := c_last_vdts s;
+  {| c_params_fit := c_params_fit s; c_closed := true; c_vcount := c_vcount s; c_last_vpts := c_last_vpts s; c_last_vdts := c_last_vdts s;
      c_last_vtick := c_last_vtick s; c_first_vpts := c_first_vpts s; c_last_apts := c_last_apts s;
      c_last_atick := c_last_atick s; c_curv := c_curv s; c_cura := c_cura s |}.
 
